@@ -302,8 +302,21 @@ def gen_e2e(rng, n, kinds=("line", "trafo"), repeat=False):
         if repeated and not spec.get("mg"):
             spec["mg"] = {"host": [0, rng.randrange(len(spec["feeders"][0]["parent"]))], "mode": rng.choice(["survival", "full", "limited"]),
                           "discon": rng.random() < 0.5, "n": 2, "battery": {"p": "1", "q": "1", "e": "2", "smin": "1/10", "smax": "1", "eta": "1"}}
+        distbat = len(cases) % 5 == 2
+        if distbat:
+            # targeted: a battery on a bus of the distribution network itself (no microgrid mode); a fault upstream leaves it as the
+            # source (reference bus) of an island
+            fd = spec["feeders"][0]
+            i0 = rng.randrange(len(fd["parent"]))
+            fd["battery"] = {str(i0): {"p": str(rng.choice([F(1, 10), F(1, 2), F(1)])), "q": "1/2", "e": str(rng.choice([F(1, 2), F(2)])), "smin": "1/10", "smax": "1",
+                                       "eta": str(rng.choice([F(1), F(19, 20)])), "soc_start": str(rng.choice([F(1, 2), F(9, 10)]))}}
         ps = net.build(dict(spec, exact=False))
         case["faults"] = rand_faults(rng, ps, n_inc, kinds)
+        if distbat and "line" in kinds:
+            up = i0
+            while rng.random() < 0.5 and spec["feeders"][0]["parent"][up] >= 0:
+                up = spec["feeders"][0]["parent"][up]
+            case["faults"].setdefault(str(rng.randint(1, 3)), []).append(["line", f"F0L{up}", "3"])
         if repeat and len(cases) % 4 == 1:
             # targeted: a pure storage bus (battery or EV park on a bus without load profile of its own) that charges for some
             # increments and is then cut off from the feed / loses its transformer
